@@ -330,3 +330,82 @@ Proof. intros Hl Hopt Hind Hv1 Hv2.
   eexists. split; [exact E1|]. split; [exact E2|]. split; [exact N|].
   cbn [Pes.has_pts Pes.has_dts Pes.ptsDtsIndicator Pes.pts Pes.dts].
   repeat split; reflexivity. Qed.
+
+(* ================= a transport packet carries only a prefix of a PES packet ================= *)
+Definition ser_head (p : pes) : bytes :=
+  [0; 0; 1; stream_id p; plen p / 256; plen p mod 256] ++
+  (if has_optional_header (stream_id p)
+   then [flags6 p; ts_flags (ts p) * 64 + flags7 p; header_data_length p] ++ ser_stamps (ts p) ++ extra p
+   else []).
+Definition set_data (p : pes) (d : bytes) : pes :=
+  mk_pes (stream_id p) (plen p) (flags6 p) (flags7 p) (ts p) (extra p) d.
+
+Lemma ser_pes_split p : ser_pes p = ser_head p ++ data p.
+Proof. unfold ser_pes, ser_head. destruct (has_optional_header (stream_id p)).
+  - rewrite <- !app_assoc. reflexivity.
+  - rewrite app_nil_r. reflexivity. Qed.
+Lemma ser_head_set_data p d : ser_head (set_data p d) = ser_head p.
+Proof. reflexivity. Qed.
+
+Lemma is_bytes_firstn (l : bytes) n : is_bytes l -> is_bytes (firstn n l).
+Proof. unfold is_bytes. revert n. induction l as [|x l IH]; intros n H; destruct n; cbn [firstn]; try constructor.
+  - inversion H; assumption.
+  - apply IH. inversion H; assumption. Qed.
+
+Lemma wf_set_data p n : wf p -> wf (set_data p (takeN n (data p))).
+Proof. intros (H1 & H2 & H3 & H4 & H5 & H6 & H7 & H8). unfold wf, set_data, header_data_length in *.
+  cbn [stream_id plen flags6 flags7 ts extra data]. repeat split; try assumption.
+  apply is_bytes_firstn. assumption. Qed.
+
+(* cutting a well-formed PES start anywhere at or after the end of its header gives the start with shorter data *)
+Lemma ser_pes_prefix p n : len (ser_head p) <= n ->
+  takeN n (ser_pes p) = ser_pes (set_data p (takeN (n - len (ser_head p)) (data p))).
+Proof. intro H. rewrite !ser_pes_split, ser_head_set_data. cbn [set_data data].
+  unfold takeN. rewrite firstn_app. rewrite firstn_all2 by (unfold len in H; lia).
+  f_equal. f_equal. unfold len in *. lia. Qed.
+
+Theorem decode_ser_prefix p n : wf p -> has_optional_header (stream_id p) = true -> len (ser_head p) <= n ->
+  Pes.new_pes_header (takeN n (ser_pes p)) =
+  Ok (expected_header (set_data p (takeN (n - len (ser_head p)) (data p)))).
+Proof. intros Hwf Hopt Hn. rewrite ser_pes_prefix by exact Hn.
+  apply decode_ser_optional; [apply wf_set_data; exact Hwf | exact Hopt]. Qed.
+
+(* a packet whose payload is the first k bytes of a well-formed PES packet (k >= header length): AlignedPUSI
+   returns the part of the PES payload that is in this packet, exactly when data_alignment_indicator is set *)
+Theorem aligned_pusi_prefix pkt p n : length pkt = 188%nat -> wf p -> has_optional_header (stream_id p) = true ->
+  len (ser_head p) <= n -> pusi pkt = true -> ts_payload pkt = Some (takeN n (ser_pes p)) ->
+  Pes.aligned_pusi pkt = if aligned p then Some (takeN (n - len (ser_head p)) (data p)) else None.
+Proof. intros L Hwf Hopt Hn Hpusi Hpay. rewrite ser_pes_prefix in Hpay by exact Hn.
+  rewrite (aligned_pusi_ser pkt _ L (wf_set_data p _ Hwf) Hopt Hpusi Hpay). reflexivity. Qed.
+
+(* ================= the packet as a serialiser ================= *)
+Lemma ts_payload_ser b0 b1 b2 b3 af pay : wf_tspkt b3 af pay ->
+  ts_payload (ser_tspkt b0 b1 b2 b3 af pay) = Some pay /\ pusi (ser_tspkt b0 b1 b2 b3 af pay) = N.testbit b1 6 /\
+  length (ser_tspkt b0 b1 b2 b3 af pay) = 188%nat.
+Proof. intros (H4 & H5 & HL). unfold ser_tspkt in *. split; [|split; [reflexivity|exact HL]].
+  unfold ts_payload. change (nthN ([b0; b1; b2; b3] ++ ser_af af ++ pay) 3) with b3. rewrite H4, H5.
+  destruct af as [a|]; cbn [ser_af app] in *.
+  - change (nthN (b0 :: b1 :: b2 :: b3 :: len a :: a ++ pay) 4) with (len a).
+    assert (E: b0 :: b1 :: b2 :: b3 :: len a :: a ++ pay = (b0 :: b1 :: b2 :: b3 :: len a :: a) ++ pay) by reflexivity.
+    rewrite E. cbn [length] in HL. rewrite app_length in HL.
+    destruct (N.leb_spec (5 + len a) 188) as [_|Hbad]; [|unfold len in Hbad; lia].
+    f_equal. apply dropN_len_app. rewrite !len_cons. lia.
+  - change (4 <=? 188) with true. cbv iota. reflexivity. Qed.
+
+(* a packet built around the first n bytes of a well-formed PES packet *)
+Theorem packet_carries_pes b0 b1 b2 b3 af p n : wf p -> has_optional_header (stream_id p) = true ->
+  len (ser_head p) <= n -> wf_tspkt b3 af (takeN n (ser_pes p)) ->
+  let pkt := ser_tspkt b0 b1 b2 b3 af (takeN n (ser_pes p)) in
+  (Pes.pkt_pes_header pkt = Ok (takeN n (ser_pes p)) <-> N.testbit b1 6 = true) /\
+  Pes.aligned_pusi pkt =
+    if N.testbit b1 6 && aligned p then Some (takeN (n - len (ser_head p)) (data p)) else None.
+Proof. intros Hwf Hopt Hn Hpk pkt.
+  destruct (ts_payload_ser b0 b1 b2 b3 af _ Hpk) as (Hpay & Hpusi & HL). fold pkt in Hpay, Hpusi, HL.
+  assert (Hsc: starts_with_start_code (takeN n (ser_pes p))).
+  { rewrite ser_pes_prefix by exact Hn. split; [|reflexivity].
+    pose proof (ser_optional_len (set_data p (takeN (n - len (ser_head p)) (data p))) Hopt). lia. }
+  split.
+  - rewrite pkt_pes_header_iff by exact HL. rewrite Hpusi. split; [intros (H & _); exact H|intro H; auto].
+  - destruct (N.testbit b1 6) eqn:P; cbn [andb].
+    + apply aligned_pusi_prefix; assumption.
+    + unfold Pes.aligned_pusi. rewrite pusi_spec, Hpusi. reflexivity. Qed.
